@@ -11,6 +11,25 @@ import AgVerif.Spec.Digraph
 namespace AgVerif.Rpo
 open AgVerif AgVerif.Spec
 
+/-- the executable well-formedness test implies `WF` -/
+theorem wf_of_wfb {g : Digraph} (h : g.wfb = true) : g.WF := by
+  simp only [Digraph.wfb, Bool.and_eq_true, decide_eq_true_eq, List.all_eq_true] at h
+  obtain ⟨⟨h1, h2⟩, h3⟩ := h
+  refine ⟨h1, ?_⟩
+  intro u v hv
+  simp only [Digraph.allSucs, List.mem_append] at hv
+  rcases hv with hv | hv
+  · cases he : g.edges[u]? with
+    | none => rw [he] at hv; simp at hv
+    | some l =>
+      rw [he] at hv
+      exact h2 l (List.mem_of_getElem? he) v hv
+  · cases he : g.catchEdges[u]? with
+    | none => rw [he] at hv; simp at hv
+    | some l =>
+      rw [he] at hv
+      exact h3 l (List.mem_of_getElem? he) v hv
+
 /-! ### post-order numbers as a function of the yield list -/
 
 /-- the `po` attribute determined by the list of yielded nodes (most recent first) -/
